@@ -10,10 +10,12 @@
 //!     6 per element (pre-order): ns:name:outer:inner(named parent):inner(no parent)  joined by `,`
 //! `H <scripting> <ctx> <hex html>`  parses (ctx `-` = document, else `ns:local` fragment context), prints
 //!     0 description of the root `html` element, then the same six fields for it
+//! `Q <scripting> <create_missing_parent> <scope i|n|ns:hexname> {call}`  HtmlSerializer driven directly:
+//!     calls  s <ns> <name> <nattrs> {<ns> <name> <value>} | e <ns> <name> | t <x> | c <x> | d <x> | p <x> <y>
 //! `W <attr 0|1> <hex text>`  write_escaped alone (a text node / one attribute value): the escaped bytes
 //! `!` in place of a field = panic.
 use html5ever::driver::{parse_document, parse_fragment, ParseOpts};
-use html5ever::serialize::{serialize, SerializeOpts, TraversalScope};
+use html5ever::serialize::{serialize, HtmlSerializer, SerializeOpts, Serializer, TraversalScope};
 use html5ever::tendril::{StrTendril, TendrilSink};
 use html5ever::tokenizer::TokenizerOpts;
 use html5ever::tree_builder::TreeBuilderOpts;
@@ -322,6 +324,73 @@ fn main() {
                     let mut i = 2;
                     let root = build(&ws, &mut i);
                     six(&root, scripting)
+                },
+                "Q" => {
+                    // the Serializer trait driven directly with an arbitrary call sequence
+                    let scope = match ws[3] {
+                        "i" => TraversalScope::IncludeNode,
+                        "n" => TraversalScope::ChildrenOnly(None),
+                        x => {
+                            let (n, l) = x.split_once(':').unwrap();
+                            TraversalScope::ChildrenOnly(Some(QualName::new(
+                                None,
+                                ns_of(n),
+                                LocalName::from(unhex(l)),
+                            )))
+                        },
+                    };
+                    let mut s = HtmlSerializer::new(
+                        Vec::<u8>::new(),
+                        SerializeOpts {
+                            scripting_enabled: ws[1] == "1",
+                            traversal_scope: scope,
+                            create_missing_parent: ws[2] == "1",
+                        },
+                    );
+                    let mut i = 4;
+                    while i < ws.len() {
+                        let k = ws[i];
+                        i += 1;
+                        match k {
+                            "s" => {
+                                let name = QualName::new(None, ns_of(ws[i]), LocalName::from(unhex(ws[i + 1])));
+                                let na: usize = ws[i + 2].parse().unwrap();
+                                i += 3;
+                                let mut attrs = vec![];
+                                for _ in 0..na {
+                                    attrs.push((
+                                        QualName::new(None, ns_of(ws[i]), LocalName::from(unhex(ws[i + 1]))),
+                                        unhex(ws[i + 2]),
+                                    ));
+                                    i += 3;
+                                }
+                                s.start_elem(name, attrs.iter().map(|(n, v)| (n, &v[..]))).unwrap();
+                            },
+                            "e" => {
+                                s.end_elem(QualName::new(None, ns_of(ws[i]), LocalName::from(unhex(ws[i + 1]))))
+                                    .unwrap();
+                                i += 2;
+                            },
+                            "t" => {
+                                s.write_text(&unhex(ws[i])).unwrap();
+                                i += 1;
+                            },
+                            "c" => {
+                                s.write_comment(&unhex(ws[i])).unwrap();
+                                i += 1;
+                            },
+                            "d" => {
+                                s.write_doctype(&unhex(ws[i])).unwrap();
+                                i += 1;
+                            },
+                            "p" => {
+                                s.write_processing_instruction(&unhex(ws[i]), &unhex(ws[i + 1])).unwrap();
+                                i += 2;
+                            },
+                            _ => panic!("bad call"),
+                        }
+                    }
+                    hex(&s.writer)
                 },
                 "W" => {
                     // write_escaped alone: a text node / one attribute value
